@@ -78,6 +78,7 @@ type Term struct {
 	Op    string
 	Args  []*Term
 	Sort  *Sort
+	Pats  [][]*Term // optional :pattern annotations (forall)
 	BVars []BVar // for forall/exists
 	id    int
 	open  bool // mentions a bound variable (cannot be hoisted)
@@ -163,6 +164,15 @@ func mkQuant(op string, bv []BVar, body *Term) *Term {
 	}
 	t.open = len(fv) > 0
 	termTab[k] = t
+	return t
+}
+
+// mkForallPat: universally quantified formula with explicit instantiation patterns.
+func mkForallPat(bv []BVar, body *Term, pats ...[]*Term) *Term {
+	t := mkQuant("forall", bv, body)
+	if t.Op == "forall" && len(t.Pats) == 0 {
+		t.Pats = pats
+	}
 	return t
 }
 
@@ -592,7 +602,35 @@ func tStore(arr, idx, v *Term) *Term {
 	return mk("store", arr.Sort, arr, idx, v)
 }
 
-func tConstArr(s *Sort, v *Term) *Term { return mk("constarr", s, v) }
+func isSMTValue(t *Term) bool {
+	switch {
+	case t.Op == "true" || t.Op == "false" || strings.HasPrefix(t.Op, "#i") || strings.HasPrefix(t.Op, "#r"):
+		return true
+	case t.Op == "constarr":
+		return isSMTValue(t.Args[0])
+	case strings.HasPrefix(t.Op, "#ctor"):
+		for _, a := range t.Args {
+			if !isSMTValue(a) {
+				return false
+			}
+		}
+		return true
+	}
+	return false
+}
+
+// tConstArr: constant array. cvc5 only accepts (as const ...) over values, so a constant array of a
+// non-value element (e.g. an uninterpreted string constant) becomes a named array with a defining axiom.
+func tConstArr(s *Sort, v *Term) *Term {
+	if isSMTValue(v) {
+		return mk("constarr", s, v)
+	}
+	name := fmt.Sprintf("carr!%d", v.id) + "!" + sanitize(s.Name)
+	a := sym(name, s)
+	b, i := freshBVar("i", s.Idx)
+	addAxiom("def_"+name, mkQuant("forall", []BVar{b}, tEq(mk("select", s.Elem, a, i), v)), name)
+	return a
+}
 
 // datatypes
 func tCtor(s *Sort, args ...*Term) *Term {
@@ -815,6 +853,11 @@ func (p *printer) count(t *Term) {
 	for _, a := range t.Args {
 		p.count(a)
 	}
+	for _, pat := range t.Pats {
+		for _, x := range pat {
+			p.count(x)
+		}
+	}
 }
 
 func smtInt(s string) string {
@@ -857,7 +900,22 @@ func (p *printer) str(t *Term) string {
 		for _, b := range t.BVars {
 			sb.WriteString("(|" + b.Name + "| " + b.Sort.Name + ")")
 		}
-		sb.WriteString(") " + p.str(t.Args[0]) + ")")
+		if len(t.Pats) > 0 {
+			sb.WriteString(") (! " + p.str(t.Args[0]))
+			for _, pat := range t.Pats {
+				sb.WriteString(" :pattern (")
+				for i, x := range pat {
+					if i > 0 {
+						sb.WriteByte(' ')
+					}
+					sb.WriteString(p.str(x))
+				}
+				sb.WriteString(")")
+			}
+			sb.WriteString("))")
+		} else {
+			sb.WriteString(") " + p.str(t.Args[0]) + ")")
+		}
 		s = sb.String()
 	case t.Op == "constarr":
 		s = "((as const " + t.Sort.Name + ") " + p.str(t.Args[0]) + ")"
@@ -1054,4 +1112,78 @@ func emitQueryOpt(hyps []*Term, goal *Term, wantModel bool, relaxed bool) (strin
 		sb.WriteString("(get-model)\n")
 	}
 	return sb.String(), axNames
+}
+
+// ---------------------------------------------------------------------------------------------
+// cone-of-influence slicing: keep the hypotheses connected to the goal through shared symbols.
+// Dropping hypotheses is always sound for proving (an unsat answer with fewer assumptions is a proof).
+
+var symCache = map[int]map[string]bool{}
+
+func symbolsOf(t *Term) map[string]bool {
+	if m, ok := symCache[t.id]; ok {
+		return m
+	}
+	m := map[string]bool{}
+	collectSyms(t, m, map[int]bool{})
+	symCache[t.id] = m
+	return m
+}
+
+func sliceHyps(hyps []*Term, goal *Term) []*Term {
+	n := len(hyps)
+	syms := make([]map[string]bool, n)
+	freq := map[string]int{}
+	for i, h := range hyps {
+		syms[i] = symbolsOf(h)
+		for s := range syms[i] {
+			freq[s]++
+		}
+	}
+	// hubs: symbols that occur in a large share of the hypotheses link everything to everything
+	hub := map[string]bool{}
+	for s, c := range freq {
+		if c > 12 && c*5 > n {
+			hub[s] = true
+		}
+	}
+	rel := map[string]bool{}
+	for s := range symbolsOf(goal) {
+		rel[s] = true
+	}
+	in := make([]bool, n)
+	for changed := true; changed; {
+		changed = false
+		for i := range hyps {
+			if in[i] {
+				continue
+			}
+			hit := false
+			nonHub := 0
+			for s := range syms[i] {
+				if hub[s] {
+					continue
+				}
+				nonHub++
+				if rel[s] {
+					hit = true
+					break
+				}
+			}
+			if hit || nonHub == 0 {
+				in[i] = true
+				changed = true
+				for s := range syms[i] {
+					rel[s] = true
+				}
+			}
+		}
+	}
+	var out []*Term
+	for i, h := range hyps {
+		if in[i] {
+			out = append(out, h)
+		}
+	}
+	return out
 }
